@@ -81,6 +81,7 @@ func C17(p *engine.Prog, r *engine.Report) {
 	c17R8(p, r)
 	c17R9(p, r)
 	c17R10(p, r)
+	c17R11(p, r)
 }
 
 func c17R1(p *engine.Prog, r *engine.Report, consts map[int64]string, nob map[int64]bool) {
@@ -950,20 +951,60 @@ func c17R10(p *engine.Prog, r *engine.Report) {
 					if !controls {
 						continue
 					}
-					// one condition that relates the map's sender to the requested shard's candidates
-					ofShard, ofSender := false, false
-					for v := range engine.BackSlice(iff.Cond, engine.DefaultSlice) {
-						if lk, isLk := v.(*ssa.Lookup); isLk {
-							if _, isSC := loadOfField(lk.X, "ValidationCeremony", "shardCandidates"); isSC && engine.Origin(lk.Index) == shard {
-								ofShard = true
+					// the condition is a membership test of the map's sender in a set whose keys are the
+					// addresses of the requested shard's candidates: a Lookup keyed by the sender into a map
+					// that this function fills from vc.shardCandidates[shardId].candidates (a cache that spans
+					// all shards, or a position test, does not say which shard the sender belongs to)
+					for v := range engine.BackSlice(iff.Cond, engine.SliceOpts{ThroughLoads: true, ThroughFields: true, MaxNodes: 200}) {
+						// a helper that is given both the shard and the sender decides membership for that shard
+						if hc, isHC := v.(*ssa.Call); isHC && hc.Common().StaticCallee() != nil && engine.IsRepoPkg(engine.FuncPkg(hc.Common().StaticCallee())) {
+							hasShard, hasSender := false, false
+							for _, a := range hc.Call.Args {
+								if engine.Origin(a) == shard {
+									hasShard = true
+								}
+								for k := range engine.BackSlice(a, engine.SliceOpts{ThroughLoads: true, ThroughFields: true, MaxNodes: 40}) {
+									if _, fld, isF := engine.FieldOf(k); isF && fld == "Sender" {
+										hasSender = true
+									}
+									if l3, isL3 := k.(*ssa.Lookup); isL3 {
+										if _, isSC := loadOfField(l3.X, "ValidationCeremony", "shardCandidates"); isSC && engine.Origin(l3.Index) == shard {
+											hasShard = true
+										}
+									}
+								}
+							}
+							if hasShard && hasSender {
+								ok = true
 							}
 						}
-						if _, fld, isF := engine.FieldOf(v); isF && fld == "Sender" {
-							ofSender = true
+						lk, isLk := v.(*ssa.Lookup)
+						if !isLk {
+							continue
 						}
-					}
-					if ofShard && ofSender {
-						ok = true
+						bySender := false
+						for k := range engine.BackSlice(lk.Index, engine.SliceOpts{ThroughLoads: true, ThroughFields: true, MaxNodes: 60}) {
+							if _, fld, isF := engine.FieldOf(k); isF && fld == "Sender" {
+								bySender = true
+							}
+						}
+						mk, isMk := engine.Unwrap(lk.X).(*ssa.MakeMap)
+						if !bySender || !isMk || mk.Referrers() == nil {
+							continue
+						}
+						for _, ref := range *mk.Referrers() {
+							mu, isMU := ref.(*ssa.MapUpdate)
+							if !isMU {
+								continue
+							}
+							for k := range engine.BackSlice(mu.Key, engine.DefaultSlice) {
+								if l2, isL2 := k.(*ssa.Lookup); isL2 {
+									if _, isSC := loadOfField(l2.X, "ValidationCeremony", "shardCandidates"); isSC && engine.Origin(l2.Index) == shard {
+										ok = true
+									}
+								}
+							}
+						}
 					}
 				}
 				r.Check(ok, "C17-R10", "readEvidenceMaps|a map counts only if its sender is a candidate of the requested shard", p.InstrPos(c), "membership in vc.shardCandidates[shardId].candidates", "evidence maps are not filtered by the requested shard's own candidates: bitmaps are positions in the sender's shard, so maps of other shards vote for unrelated identities and raise the majority threshold — who is approved depends on the other shards")
@@ -997,4 +1038,99 @@ func c17R10(p *engine.Prog, r *engine.Report) {
 		r.Check(n >= 2, "C17-R10", "EpochDb.WriteAnswers|both lists are written", p.Pos(f.Pos()), itoa(int64(n))+" writes", "fewer than two writes: short or long answers are not persisted")
 	}
 	r.Floor("C17-R10", 3, "evidence selection + two list writes")
+}
+
+// c17R11: a node that restarts during a ceremony rebuilds the candidates in every period in which a
+// running node holds them: the live path computes them when the flip lottery starts, so restoreState
+// recomputes them for every validation period except None (decided by evaluating its guard for each
+// constant of the period enum).
+func c17R11(p *engine.Prog, r *engine.Report) {
+	f := mustFunc(p, r, "core/ceremony", "ValidationCeremony.restoreState")
+	if f == nil {
+		return
+	}
+	r.Fn(engine.FuncName(f))
+	periods := map[string]int64{}
+	for _, n := range []string{"NonePeriod", "FlipLotteryPeriod", "ShortSessionPeriod", "LongSessionPeriod", "AfterLongSessionPeriod"} {
+		periods[n] = constInt(p, "core/state", n)
+	}
+	cs := callsTo(f, "core/ceremony.ValidationCeremony.calculateCeremonyCandidates")
+	if len(cs) == 0 {
+		r.Bad("C17-R11", "restoreState|candidates are rebuilt after a restart", p.Pos(f.Pos()), "calculateCeremonyCandidates is not called")
+		return
+	}
+	c := cs[0]
+	// the comparisons on ValidationPeriod() that control the call
+	type cmp struct {
+		op    token.Token
+		k     int64
+		onTru bool
+	}
+	var cmps []cmp
+	other := false
+	for _, d := range f.Blocks {
+		if len(d.Instrs) == 0 {
+			continue
+		}
+		iff, ok := d.Instrs[len(d.Instrs)-1].(*ssa.If)
+		if !ok {
+			continue
+		}
+		branch := -1
+		for i, s := range d.Succs {
+			if len(s.Preds) == 1 && s.Dominates(c.Block()) {
+				branch = i
+			}
+		}
+		if branch < 0 {
+			continue
+		}
+		cond, neg := stripNot(iff.Cond)
+		bo, isB := cond.(*ssa.BinOp)
+		if !isB {
+			other = true
+			continue
+		}
+		call, isC := engine.Unwrap(bo.X).(*ssa.Call)
+		k, isK := engine.ConstInt(bo.Y)
+		if !isC || !isK || !engine.CallNameIs(call, "ValidationPeriod") {
+			other = true
+			continue
+		}
+		cmps = append(cmps, cmp{bo.Op, k, (branch == 0) != neg})
+	}
+	eval := func(v int64) bool {
+		for _, x := range cmps {
+			var t bool
+			switch x.op {
+			case token.EQL:
+				t = v == x.k
+			case token.NEQ:
+				t = v != x.k
+			case token.LSS:
+				t = v < x.k
+			case token.LEQ:
+				t = v <= x.k
+			case token.GTR:
+				t = v > x.k
+			case token.GEQ:
+				t = v >= x.k
+			}
+			if t != x.onTru {
+				return false
+			}
+		}
+		return true
+	}
+	var missing []string
+	for _, n := range []string{"FlipLotteryPeriod", "ShortSessionPeriod", "LongSessionPeriod", "AfterLongSessionPeriod"} {
+		if !eval(periods[n]) {
+			missing = append(missing, n)
+		}
+	}
+	if other {
+		r.Und("C17-R11", "restoreState|candidates are rebuilt in every ceremony period", p.InstrPos(c), "the call is controlled by a condition that is not a comparison of ValidationPeriod() with a constant")
+		return
+	}
+	r.Check(len(missing) == 0, "C17-R11", "restoreState|candidates are rebuilt in every ceremony period", p.InstrPos(c), "FlipLottery, ShortSession, LongSession, AfterLongSession", "after a restart in {"+strings.Join(missing, ",")+"} the candidates and the flip distribution are not rebuilt (the running node computed them when the lottery started and keeps them): ApplyNewEpoch on the restarted node iterates over no shards and reports another epoch result than the nodes that kept running")
 }
